@@ -21,7 +21,7 @@ META = dict(
     id='C11',
     level='proof',
     technique='Coq proof about the modelled mechanisms (buffer-copy arithmetic over a site list regenerated from the source, parser nesting depth, division guards, period-stepping variant) + differential correspondence of the extracted model against ledger on boundary inputs + observation (signals, timeouts, exit status, ASan/UBSan in the thorough tier) on boundary, truncated and mutated inputs',
-    level_text='PARTIAL. Proved in coq/Properties/Properties_C11.v: (a) for every fixed char buffer of src/*.cc,*.h and every statement that writes through it (list regenerated from the source on each run; unclassifiable statements fail closed) the bytes stored never exceed the capacity, for every input length; the READ_INTO macro is transcribed and its bound proved; (b) every expression the recursive-descent parser accepts nests at most src_parse_depth_limit deep and fetches at most src_expr_token_limit tokens (both constants and their guards are read from the source), while without those guards depth and length are unbounded; (c) every division cell of the amount/balance/value model tests the operand it divides by, so a zero divisor never yields a quotient; (d) the period-stepping loop of date_interval_t::stabilize has a strictly increasing variant for every quantity the period parser accepts, and never terminates for a zero quantity (which the source rejects); (e) the `%$N` prior-field reference of format strings, a walk along the element list of the template, never dereferences the null pointer with the tests the source has (its exact bounds are proved for the guarded and the unguarded loop); the guards added by the repairs (query nesting/terms, roundto places, conversion cycles, missing expression argument, script loop, generated transactions without journal, find_account frame buffer) are recognised in the source and their presence is a theorem. The model is tied to the code by the regenerated tables and by comparing predicted outcome classes with freshly built ledger on boundary inputs (every site constant +/-2, 255/256/257 parentheses, 4095/4096/4097 tokens, 256/257 query terms, 65535/65536 places, `%$N` for N = 1..F against templates of 0..16 fields, ...). NOT covered: memory safety, absence of undefined behaviour and bounded stack use of the compiled program in general (heap objects, iterators, std::string, boost, the report/filter code, integer overflow) - for these the check only observes (signals, timeouts, exit status, sanitizer reports in the thorough tier) on boundary-directed, truncated and mutated inputs; defects found that way and not yet repaired are listed as findings (F46, F48 use after free; F51 conversion through an annotated commodity, F52 self-referring definitions, F53 unbounded format widths - patches prepared).',
+    level_text='PARTIAL. Proved in coq/Properties/Properties_C11.v: (a) for every fixed char buffer of src/*.cc,*.h and every statement that writes through it (list regenerated from the source on each run; unclassifiable statements fail closed) the bytes stored never exceed the capacity, for every input length; the READ_INTO macro is transcribed and its bound proved; (b) every expression the recursive-descent parser accepts nests at most src_parse_depth_limit deep and fetches at most src_expr_token_limit tokens (both constants and their guards are read from the source), while without those guards depth and length are unbounded; (c) every division cell of the amount/balance/value model tests the operand it divides by, so a zero divisor never yields a quotient; (d) the period-stepping loop of date_interval_t::stabilize has a strictly increasing variant for every quantity the period parser accepts, and never terminates for a zero quantity (which the source rejects); (e) the `%$N` prior-field reference of format strings, a walk along the element list of the template, never dereferences the null pointer with the tests the source has (its exact bounds are proved for the guarded and the unguarded loop); (f) the alias expansion loop of journal_t::expand_aliases terminates within one round per alias (each round records a table key not recorded before), given that each branch records the name it looked up, which the translator checks; the guards added by the repairs (query nesting/terms, roundto places, conversion cycles, missing expression argument, script loop, generated transactions without journal, find_account frame buffer) are recognised in the source and their presence is a theorem. The model is tied to the code by the regenerated tables and by comparing predicted outcome classes with freshly built ledger on boundary inputs (every site constant +/-2, 255/256/257 parentheses, 4095/4096/4097 tokens, 256/257 query terms, 65535/65536 places, `%$N` for N = 1..F against templates of 0..16 fields, ...). NOT covered: memory safety, absence of undefined behaviour and bounded stack use of the compiled program in general (heap objects, iterators, std::string, boost, the report/filter code, integer overflow) - for these the check only observes (signals, timeouts, exit status, sanitizer reports in the thorough tier) on boundary-directed, truncated and mutated inputs; defects found that way and not yet repaired are listed as findings (F46, F48 use after free; F51 conversion through an annotated commodity, F52 self-referring definitions, F53 unbounded format widths - patches prepared).',
     level_note='Trusted: Coq kernel; the translator harness/translators/c11_buffers.py (narrow patterns, fail closed) for the site list and guard constants; extraction + OCaml driver + python harness for the correspondence; the calendar is not modelled in (d) (month steps only by the lower bound 28 days per month); the assumption that `line` in textual.cc always points into parse_context_t::linebuf. Sanitizer observation exists only in the thorough tier.',
     design_ref='DESIGN.md section 7 C11, section 12',
     assumptions=['stack limit of the test environment is the default 8 MiB (the crash depth of findings F4/F38 depends on it)',
@@ -101,11 +101,15 @@ def run_cases(ctx, cases, tag, binary=None, env=None, confirm=True):
     # a timeout seen under full load is confirmed by running the case again with few
     # neighbours and twice the time
     again = [(c, a, d) for c, a, d in jobs if c.result[0] == 'timeout' and confirm]
-    if again:
+    # (when the first dozen are all confirmed the rest are taken as they are: the run fails anyway)
+    while again:
+        part, again = again[:12], again[12:]
         with concurrent.futures.ThreadPoolExecutor(max_workers=4) as ex:
-            futs = [ex.submit(run_one, binary, a, c.stdin, env, d, 2) for c, a, d in again]
-            for (c, a, d), f in zip(again, futs):
+            futs = [ex.submit(run_one, binary, a, c.stdin, env, d, 2) for c, a, d in part]
+            for (c, a, d), f in zip(part, futs):
                 c.result = f.result()
+        if all(c.result[0] == 'timeout' for c, a, d in part):
+            break
     for c, a, d in jobs:
         shutil.rmtree(d, ignore_errors=True)
     return cases
@@ -653,6 +657,23 @@ def long_tokens(ctx, res, binary=None, env=None, sanitizer=False):
         cases.append(Case('commodity-conversion-annotated-self', t + '2020/01/01 p\n  A  2 a\n  B\n', ['bal'],
                           info=E('error') if GUARDS.get('conversion_cycle_by_referent') else {}))
     cases.append(Case('commodity-conversion', 'C 1 a {$1} = 2 b\n2020/01/01 p\n  A  2 a\n  B\n', ['bal'], info=E('ok')))
+    # a conversion cycle through the `larger` links only (F56 until repaired)
+    cases.append(Case('commodity-conversion-larger-cycle', 'C 1 a = 1 b\nC 1 a = 1 z\nC 1 b = 1 a\n2020/01/01 p\n  A  2 b\n  B\n', ['bal'],
+                      info=E('error') if GUARDS.get('conversion_larger_chain_guard') else {}))
+    cases.append(Case('commodity-conversion', 'C 1 a = 1 b\nC 1 a = 1 z\n2020/01/01 p\n  A  2 b\n  A  3 z\n  B\n', ['bal'], info=E('ok')))
+    # a journal that includes itself, directly or through another file (F55 until repaired)
+    inc = E('error') if GUARDS.get('include_self_guard') else {}
+    cases.append(Case('include-self', 'include j.dat\n' + j, ['bal'], info=inc))
+    cases.append(Case('include-self', j + 'include s2.dat\n', ['bal'], files={'s2.dat': 'include j.dat\n'}, info=inc))
+    cases.append(Case('include-self', 'include s2.dat\n', ['bal'], files={'s2.dat': 'include s3.dat\n', 's3.dat': 'include s2.dat\n'}, info=inc))
+    cases.append(Case('include-self', 'include *.dat\n' + j, ['bal'], info=inc))
+    cases.append(Case('include', 'include s2.dat\ninclude s2.dat\n' + j, ['bal'], files={'s2.dat': '2020/01/02 q\n  C  $2\n  D\n'}, info=E('ok')))
+    cases.append(Case('include', 'include nonexistent.dat\n' + j, ['bal'], info=E('error')))
+    # the xact command: a cost with no posting to attach it to (F54 until repaired)
+    dg = GUARDS.get('draft_cost_post_guard')
+    for a, cls in ((['foo', '@', '5'], 'error'), (['@', '5'], 'error'), (['foo', '@'], 'error'), (['foo', '@@', '5'], 'error'),
+                   (['foo', 'A', '5', '@', '3'], 'ok'), (['foo', 'A', '5 AAA', '@@', '$3'], 'ok'), (['p', '5', '@'], 'error')):
+        cases.append(Case('xact-cost-without-posting', j, ['xact'] + a + NOW, info=E(cls) if dg else {}))
     # definitions that refer to each other (F52 until repaired)
     dj = 'define foo = bar\ndefine bar = foo\n' + j
     for a in (['reg', '--amount', 'foo(1)'], ['reg', '--amount', 'foo'], ['bal', '-l', 'foo']):
@@ -851,6 +872,91 @@ def formats(ctx, res, binary=None, env=None, sanitizer=False):
             res.disagreements.append(dict(name='C11/directed:' + c.construct, case=c.args[2][:80], impl=got, model=exp))
     if len(res.samples) < 7 and cases:
         res.samples.append(dict(construct='format-field-ref', format=cases[0].info['fmt'], impl=obs_class(cases[0]), model=model[0]))
+
+
+# ------------------------------------------------------------------------------ account aliases
+
+def alias_tables(rng, n):
+    """alias tables aimed at the loop of expand_aliases: chains and cycles of length 1-4 through
+    whole names and through first segments, self-aliases, keys with colons, random tables"""
+    S = ['A', 'B', 'C', 'D', 'E']
+    X = ['X', 'Y', 'Z', 'W']
+    out = []
+    for L in (1, 2, 3, 4):
+        ks = S[:L]
+        out.append(('chain-whole', [(ks[i], ks[i + 1] if i + 1 < L else 'T') for i in range(L)]))
+        out.append(('cycle-whole', [(ks[i], ks[(i + 1) % L]) for i in range(L)]))
+        out.append(('chain-first', [(ks[i], (ks[i + 1] if i + 1 < L else 'T') + ':' + X[i]) for i in range(L)]))
+        out.append(('cycle-first', [(ks[i], ks[(i + 1) % L] + ':' + X[i]) for i in range(L)]))
+        out.append(('cycle-mixed', [(ks[i], ks[(i + 1) % L] + (':' + X[i] if i % 2 else '')) for i in range(L)]))
+        out.append(('cycle-deep-target', [(ks[i], ks[(i + 1) % L] + ':' + X[i] + ':' + X[(i + 1) % 4]) for i in range(L)]))
+    out += [('self', [('A', 'A')]), ('self-first', [('A', 'A:B')]), ('self-inner', [('A', 'B:A')]), ('self-last', [('A', 'B:C:A')]),
+            ('colon-key', [('A:B', 'C'), ('C', 'A:B')]), ('colon-key-first', [('A:B', 'C:X'), ('C', 'A')]),
+            ('seeded-shape', [('Cash', 'Wallet:Coins'), ('Wallet', 'Cash:Purse')]),
+            ('two-cycles', [('A', 'B:X'), ('B', 'A:Y'), ('C', 'D'), ('D', 'C')]),
+            ('shadow', [('A', 'B'), ('A:Z', 'C'), ('B', 'A:Z')])]
+    while len(out) < n:
+        k = rng.choice([1, 2, 3, 4])
+        keys = rng.sample(S, k)
+        tbl = []
+        for key in keys:
+            if rng.random() < 0.15:
+                key = key + ':' + rng.choice(S + X)
+            t = ':'.join(rng.choice(S + X) for _ in range(rng.choice([1, 1, 2, 2, 3])))
+            tbl.append((key, t))
+        out.append(('random', tbl))
+    return out
+
+
+def aliases(ctx, res, binary=None, env=None, sanitizer=False):
+    rng = ctx.rng
+    cases, lines = [], []
+    for kind, tbl in alias_tables(rng, ctx.scale(90, 600)):
+        heads = sorted({k.split(':')[0] for k, _ in tbl})
+        uses = set()
+        for h in heads[:3]:
+            uses |= {h, h + ':Z', 'Z:' + h, 'Z:' + h + ':Q', h + ':Z:Q'}
+        for k, _ in tbl:
+            uses |= {k, k + ':Z'}
+        for acct in sorted(uses):
+            for rec in (True, False):
+                j = ''.join('alias %s=%s\n' % kt for kt in tbl) + '2020/01/01 p\n  %s  $1\n  Income:Other\n' % acct
+                args = (['--recursive-aliases'] if rec else []) + ['accounts'] + NOW
+                cases.append(Case('alias-expansion', j, args, info=dict(kind=kind, tbl=tbl, acct=acct, rec=rec)))
+                lines.append(lib.sx(['alias', 'a%d' % len(lines), rec, [[k, t] for k, t in tbl], acct]))
+    run_cases(ctx, cases, 'alias', binary, env)
+    model = lib.run_model('C11', lines) if not sanitizer else [''] * len(cases)
+    for case, ml in zip(cases, model):
+        res.evaluations += 1
+        res.count('alias:' + case.info['kind'])
+        add_violations(res, case, judge(case, sanitizer))
+        if sanitizer:
+            continue
+        res.traces += 1
+        verdict = ml.split(' ', 1)[1]
+        got = obs_class(case)
+        if case.info['rec'] and case.info['kind'] != 'random' or verdict == 'Cycle':
+            res.nontrivial.add('alias:%s:%s:%s' % (case.info['tbl'], case.info['acct'], case.info['rec']))
+        if got.startswith('signal') or got == 'timeout':
+            continue
+        desc = dict(aliases=case.info['tbl'], account=case.info['acct'], recursive=case.info['rec'])
+        if any(k == t for k, t in case.info['tbl']):
+            # the alias directive itself refuses `alias A=A` (textual.cc alias_directive)
+            if got != 'error' or b'Illegal alias' not in case.result[2]:
+                res.disagreements.append(dict(name='C11/alias-directive', case=desc, impl=got, model='error: Illegal alias'))
+        elif verdict == 'NoEnd':
+            res.disagreements.append(dict(name='C11/alias-model', case=desc, impl=got, model=ml))
+        elif verdict == 'Cycle':
+            if got != 'error' or b'Infinite recursion on alias expansion' not in case.result[2]:
+                res.disagreements.append(dict(name='C11/alias-expansion', case=desc, impl=got + ' ' + case.result[2][-80:].decode('latin-1'), model=ml))
+        else:
+            want = verdict.split(' ', 1)[1]
+            have = [l.strip() for l in case.result[1].decode('latin-1').split('\n') if l.strip()]
+            if got != 'ok' or want not in have:
+                res.disagreements.append(dict(name='C11/alias-expansion', case=desc, impl='%s %s' % (got, have), model=ml))
+    if len(res.samples) < 8 and cases:
+        res.samples.append(dict(construct='alias-expansion', aliases=cases[40].info['tbl'], account=cases[40].info['acct'],
+                                recursive=cases[40].info['rec'], impl=obs_class(cases[40]), model=model[40]))
 
 
 # ------------------------------------------------------------------------------ mutation stream
@@ -1238,6 +1344,7 @@ def sanitizer_tier(ctx, res, sites):
         truncated(ctx, sub, binary, env, sanitizer=True)
         long_tokens(ctx, sub, binary, env, sanitizer=True)
         formats(ctx, sub, binary, env, sanitizer=True)
+        aliases(ctx, sub, binary, env, sanitizer=True)
         periods_s = lib.Result()
         nesting_light(ctx, sub, binary, env)
         mutation(ctx, sub, ctx.scale(0, 400), binary, env, sanitizer=True, tag="smut")
@@ -1294,8 +1401,8 @@ def run(ctx, light=False):
     phases = [('buffers', lambda: buffers(ctx, res, sites)), ('escapes', lambda: escapes(ctx, res)),
               ('nesting', lambda: nesting(ctx, res)), ('division', lambda: division(ctx, res)),
               ('periods', lambda: periods(ctx, res)), ('truncated', lambda: truncated(ctx, res)),
-              ('long_tokens', lambda: long_tokens(ctx, res)), ('formats', lambda: formats(ctx, res)),
-              ('mutation', lambda: mutation(ctx, res, ctx.scale(6000, 16000)))]
+              ('long_tokens', lambda: long_tokens(ctx, res)), ('formats', lambda: formats(ctx, res)), ('aliases', lambda: aliases(ctx, res)),
+              ('mutation', lambda: mutation(ctx, res, ctx.scale(8000, 16000)))]
     if ctx.tier == 'thorough' and not light:
         phases.append(('sanitizer', lambda: sanitizer_tier(ctx, res, sites)))
     res.extra['phase_wall_s'] = {}
@@ -1318,6 +1425,7 @@ def search(ctx, broken):
         buffers(ctx, r, sites, compare=False)
         long_tokens(ctx, r)
         formats(ctx, r)
+        aliases(ctx, r)
         mutation(ctx, r, 6000, tag='srch')
         known = [k for k in lib.load_known_findings() if k['prop'] == 'C11']
         new = [v for v in r.violations if not any(re.fullmatch(k['match'], v['key']) for k in known)]
